@@ -1,0 +1,81 @@
+//go:build verif
+
+package analyzer
+
+// Verification hook for the reproducibility property (C05): the MinHash / LSH stage of
+// DetectClonesWithLSH run on chosen feature sets (or on the fragments of given Python
+// sources) so that the harness can compare signatures, band keys and candidate sets
+// between repeated calls and between processes. Add-only; compiled only with -tags verif.
+
+import (
+	"context"
+	"fmt"
+
+	"github.com/ludo-technologies/pyscn/internal/parser"
+)
+
+// VerifMinHashRun is the outcome of one pass over all feature sets.
+type VerifMinHashRun struct {
+	Sigs  [][]string  `json:"sigs"`  // per set: the signature, 16 hex digits per hash function
+	Keys  [][]string  `json:"keys"`  // per set: the band keys of the LSH index
+	Cands [][]string  `json:"cands"` // per set: FindCandidates on an index holding all sets
+	Est   [][]float64 `json:"est"`   // EstimateJaccardSimilarity matrix
+}
+
+// VerifLSHFeatureSets returns, for every clone fragment of the given sources (default detector
+// configuration), its id and the feature list the LSH stage hashes (same calls as DetectClonesWithLSH).
+func VerifLSHFeatureSets(files []VerifCloneFile, rows int) ([]string, [][]string, error) {
+	ctx := context.Background()
+	cd := NewCloneDetector(DefaultCloneDetectorConfig())
+	p := parser.New()
+	var frags []*CodeFragment
+	for _, f := range files {
+		pr, err := p.Parse(ctx, []byte(f.Text))
+		if err != nil || pr == nil || pr.AST == nil {
+			return nil, nil, fmt.Errorf("cannot parse %s", f.Path)
+		}
+		frags = append(frags, cd.ExtractFragments([]*parser.Node{pr.AST}, f.Path)...)
+	}
+	cd.fragments = frags
+	cd.prepareFragments()
+	extractor := NewASTFeatureExtractor().WithOptions(max(1, rows), max(2, 4), true, false)
+	ids := []string{}
+	sets := [][]string{}
+	for _, f := range frags {
+		if f == nil || f.TreeNode == nil {
+			continue
+		}
+		feats, _ := extractor.ExtractFeatures(f.TreeNode)
+		ids = append(ids, fmt.Sprintf("%s:%d-%d", f.Location.FilePath, f.Location.StartLine, f.Location.EndLine))
+		sets = append(sets, feats)
+	}
+	return ids, sets, nil
+}
+
+// VerifMinHashOnce computes signature, band keys, candidates and the estimate matrix with a
+// fresh MinHasher and a fresh LSHIndex (what one DetectClonesWithLSH call does).
+func VerifMinHashOnce(ids []string, sets [][]string, hashes, bands, rows int) *VerifMinHashRun {
+	hasher := NewMinHasher(hashes)
+	index := NewLSHIndex(bands, rows)
+	sigs := make([]*MinHashSignature, len(sets))
+	run := &VerifMinHashRun{}
+	for i, s := range sets {
+		sigs[i] = hasher.ComputeSignature(s)
+		_ = index.AddFragment(ids[i], sigs[i])
+		ss := make([]string, len(sigs[i].signatures))
+		for k, v := range sigs[i].signatures {
+			ss[k] = fmt.Sprintf("%016x", v)
+		}
+		run.Sigs = append(run.Sigs, ss)
+		run.Keys = append(run.Keys, index.computeBandKeys(sigs[i]))
+	}
+	for i := range sets {
+		run.Cands = append(run.Cands, index.FindCandidates(sigs[i]))
+		row := make([]float64, len(sets))
+		for j := range sets {
+			row[j] = hasher.EstimateJaccardSimilarity(sigs[i], sigs[j])
+		}
+		run.Est = append(run.Est, row)
+	}
+	return run
+}
